@@ -339,7 +339,8 @@ def guard_cases(rng, tier):
             half = fenc(B, *round_frac(Fraction(1, 2), B, p), p, m)
             for a, b in ((x, zero), (x, one), (zero, x), (zero, zero), (neg, x), (neg, one), (neg, zero), (neg, half),
                          (x0, x0), (x0, zero), (fenc(B, "inf", 0, p, m), x), (one, x), (x, half),
-                         (fenc(B, "-inf", 0, p, m), zero)):
+                         (fenc(B, "-inf", 0, p, m), zero), (zero, fenc(B, "inf", 0, p, m)),
+                         (x, fenc(B, "-inf", 0, p, m)), (one, fenc(B, "inf", 0, p, m))):
                 yield ("f.powf", [a, b])
             yield ("c.powf", [fenc(B, *float_with_top(rng, B, 2 * p + 1, 1, 2 * p + 1), 0, m), one, dec(p)])
             yield ("c.powf", [x, x, dec(0)])
@@ -623,8 +624,6 @@ def kf(cls, op, args, impl, model):
     if cls == "exact-flag":
         # the value is certified within one ulp; only the flag is wrong
         return viol and "Exact-flag-on-inexact-result value-within-1ulp" in model and impl.endswith(" Exact")
-    if cls == "domain":
-        return "DomainError(required:" in model
     req = model.startswith("required a-value-within-1ulp") and "log.rs:250" in impl
     if not (viol and "result-not-within-1ulp" in model or "result-exactly-1ulp" in model or req):
         return False
@@ -662,6 +661,8 @@ THEOREMS = [
     "Dashu.Props.C11.exp_m1_zero_exact",
     "Dashu.Props.C11.ln_one_exact",
     "Dashu.Props.C11.ln_1p_zero_exact",
+    "Dashu.Props.C11.ln_nonpositive",
+    "Dashu.Props.C11.ln_1p_le_neg_one",
     "Dashu.Props.C11.powi_zero_exact",
     "Dashu.Props.C11.powi_one_round",
     "Dashu.Props.C11.powf_zero_exact",
@@ -697,7 +698,7 @@ THEOREMS = [
 ]
 
 REFINED = ["Context::exp_internal entry guards (assert_finite, assert_limited_precision, zero shortcut)",
-           "Context::ln_internal entry guards (assert_finite, assert_limited_precision, ln 1 / ln_1p 0 shortcut)",
+           "Context::ln_internal entry guards (assert_finite, assert_limited_precision, ln 1 / ln_1p 0 shortcut, domain test x <= 0 / x <= -1)",
            "Context::powi entry (assert_finite, negative exponent + unlimited precision, x^0, x^1 = repr_round)",
            "Context::powf entry (assert_finite(base), assert_limited_precision, y = 0, y = 1, base = 0, negative base)"]
 FRONTIER = ["the numerical bodies of exp_internal / ln_internal / iacoth / ln2 / ln10 / powi (binary exponentiation) / powf "
